@@ -38,7 +38,7 @@ def correspond(ctx):
 
 def search(ctx, broken, res0):
     res = Result()
-    for c in sk.gen_cases(ctx, se.NAMES, ctx.pick(10, 25)):
+    for c in sk.targeted_cases(ctx, res0) + sk.gen_cases(ctx, se.NAMES, ctx.pick(10, 25)):
         res.evaluations += 1
         so.c07(res, c, ctx.rng)
     return res
